@@ -64,6 +64,7 @@ func targeted() {
 	stackGrowth()
 	reentrantRecursion()
 	failedStartKeepsWrites()
+	wrappedNestedFailures()
 }
 
 // failedStartKeepsWrites: an instantiation that fails in its START function has already applied its active element
